@@ -1,6 +1,6 @@
 (* C12 — proofs about the model of out-of-order block delivery. *)
 From Coq Require Import List NArith Bool Lia PeanoNat Permutation.
-From C12 Require Import Model.
+From C12 Require Import Model Spec.
 Import ListNotations.
 
 (* ---- lists and maps --------------------------------------------------------- *)
@@ -82,10 +82,6 @@ Proof.
 Qed.
 
 (* ---- the orphan manager ------------------------------------------------------ *)
-
-(* every waiting orphan is listed under its parent *)
-Definition index_complete (s : state) : Prop :=
-  forall o, In o (orphans s) -> exists l, lookup (prevs s) (bparent o) = Some l /\ In (bid o) l.
 
 Lemma om_delete_stored s h : stored (om_delete s h) = stored s.
 Proof.
@@ -172,15 +168,8 @@ Notation sub_loop := (sub_loop valid).
 Notation save_sub := (save_sub valid).
 Notation process_block := (process_block valid best_height cap).
 Notation run := (run valid best_height cap).
-
-(* a valid orphan whose parent is stored: what must not be left behind *)
-Definition viol (s : state) (o : blk) : Prop :=
-  In o (orphans s) /\ valid o = true /\ has_id (stored s) (bparent o) = true.
-
-(* b is connected to genesis through delivered valid blocks *)
-Inductive connected (g : blk) (D : list blk) : blk -> Prop :=
-| conn_root b : In b D -> valid b = true -> bparent b = bid g -> connected g D b
-| conn_step b p : In b D -> valid b = true -> connected g D p -> bparent b = bid p -> connected g D b.
+Notation viol := (viol valid).
+Notation connected := (connected valid).
 
 Lemma connected_In g D b : connected g D b -> In b D.
 Proof. destruct 1; assumption. Qed.
@@ -247,11 +236,8 @@ Variable g : blk.
 Variable U : blk -> Prop.
 Hypothesis Ug : U g.
 Hypothesis Ucons : forall a b, U a -> U b -> bid a = bid b -> a = b.
-
-Definition stored_ok (D : list blk) (s : state) : Prop :=
-  forall x, In x (stored s) -> x = g \/ connected g D x.
-Definition orph_ok (D : list blk) (s : state) : Prop :=
-  forall x, In x (orphans s) -> In x D.
+Notation stored_ok := (stored_ok valid g).
+Notation Inv := (Inv valid g).
 
 Section Delivered.
 Variable D : list blk.
@@ -392,16 +378,6 @@ Qed.
 End Delivered.
 
 (* ---- the invariant over delivery histories ------------------------------------ *)
-
-Record Inv (D : list blk) (s : state) : Prop := {
-  inv_g : In g (stored s);
-  inv_conn : stored_ok D s;
-  inv_orph : orph_ok D s;
-  inv_kept : evicted s = 0%N -> forall x, In x D -> valid x = true -> In x (stored s) \/ In x (orphans s);
-  inv_viol : forall o, ~ viol s o;
-  inv_idx : index_complete s;
-  inv_len : length (orphans s) <= length D
-}.
 
 Lemma Inv_init : Inv [] (init g).
 Proof.
@@ -577,10 +553,6 @@ Qed.
 End Chain.
 
 (* ---- the property -------------------------------------------------------------- *)
-
-(* a hash identifies its block, over genesis and everything delivered *)
-Definition hash_consistent (l : list blk) : Prop :=
-  forall a b, In a l -> In b l -> bid a = bid b -> a = b.
 
 Section Statement.
 Variable valid : blk -> bool.
